@@ -28,7 +28,11 @@ import (
 )
 
 var (
-	thetas = []time.Duration{0, time.Second, -250 * time.Millisecond}
+	// server clock offsets; their differences must not equal the time between two
+	// exchanges (gap + delays), or a clock step makes the server stamp two
+	// exchanges of one client with the same receive timestamp - an ambiguity
+	// inherent in identifying exchanges by timestamp, not a property of the code
+	thetas = []time.Duration{0, 1370 * time.Millisecond, -250 * time.Millisecond}
 	delays = []time.Duration{3 * time.Millisecond, 0, 1, 40 * time.Millisecond}
 	gaps   = []time.Duration{time.Second, 0, 3*time.Second - 1, 3 * time.Second, 3*time.Second + 1, 10 * time.Second}
 )
@@ -53,9 +57,9 @@ type env struct {
 	lastDelivered *kit.Reply
 	scion         bool
 	sw            *kit.SCIONWorld
-	srvWrongID    uint32
+	srvLate       *vnet.TxStamp
 	srvSends      uint32
-	srvTxMode     int // 0: kernel transmit timestamp readable, 1: none, 2: error-queue entry of another packet (wrong id)
+	srvTxMode     int // 0: kernel transmit timestamp readable, 1: none, 2: delivered late (after the next reply was sent)
 }
 
 type realServer struct {
@@ -187,13 +191,18 @@ func (e *env) serve(d *vnet.Datagram) []*kit.Reply {
 func (e *env) serverStamp(d *vnet.Datagram) *vnet.TxStamp {
 	ts := e.w.Clock.Peek()
 	defer func() { e.srvSends++ }()
+	if e.srvLate != nil {
+		e.real.sock.QueueErr(*e.srvLate)
+		e.srvLate = nil
+	}
 	switch e.srvTxMode {
 	case 1:
 		return &vnet.TxStamp{None: true}
 	case 2:
-		// the entry of some other packet: wrong id, unrelated time
-		e.srvWrongID += 7
-		return &vnet.TxStamp{TS: ts.Add(5 * time.Millisecond), ID: 1000 + e.srvWrongID}
+		// delivered late: this packet's entry reaches the queue only just before the
+		// next reply's own entry
+		e.srvLate = &vnet.TxStamp{TS: ts.Add(3 * time.Microsecond), ID: e.srvSends}
+		return &vnet.TxStamp{None: true}
 	}
 	// the kernel stamps the packet a little after the software reading
 	ts = ts.Add(3 * time.Microsecond)
@@ -437,6 +446,6 @@ func TestCheck(t *testing.T) {
 				r.Explore(mc.Config{Name: name, Bound: mc.Pick(r, 3, 4)}, program(r, il, real, true, mc.Pick(r, 3, 4)))
 			}
 		}
-		r.Extra["rule"] = "histories of 3 (4) MeasureClockOffsetIP / MeasureClockOffsetSCION calls (each up to 3 exchanges) with the real IPClient and the real SCIONClient (one path), interleaved mode on/off, against a reference server and against the repository's runIPServer / runSCIONServer; per exchange: request {deliver, drop, duplicate}, server clock offset in {0,+1s,-250ms}, forward/backward delay in {3ms,0,1ns,40ms}, reply {deliver, drop, duplicate, hold and deliver stale later}, client port fresh/reused, kernel rx/tx timestamps present/absent, gap to next call in {1s,0,3s-1ns,3s,3s+1ns,10s}; all histories within 3 (4) deviations"
+		r.Extra["rule"] = "histories of 3 (4) MeasureClockOffsetIP / MeasureClockOffsetSCION calls (each up to 3 exchanges) with the real IPClient and the real SCIONClient (one path), interleaved mode on/off, against a reference server and against the repository's runIPServer / runSCIONServer; per exchange: request {deliver, drop, duplicate}, server clock offset in {0,+1.37s,-250ms}, forward/backward delay in {3ms,0,1ns,40ms}, reply {deliver, drop, duplicate, hold and deliver stale later}, client port fresh/reused, kernel rx/tx timestamps present/absent, gap to next call in {1s,0,3s-1ns,3s,3s+1ns,10s}; all histories within 3 (4) deviations"
 	})
 }
